@@ -1,5 +1,6 @@
 import Cellml.C06.CaseFree
 import Cellml.C06.Meta
+import Cellml.C06.Units4
 
 /-! # C06 — changing the units of a model variable never changes what the model computes
 
@@ -114,6 +115,18 @@ theorem convert_var_meta (s : CState) (v : Nat) (hv : v < s.vars.length) (u : U)
     rcases h with h | h
     · rw [h]; cases cmetaOfV s v <;> rfl
     · rw [h]
+
+-- ================================================================================================ units
+/-- **Equations that were unit-consistent stay unit-consistent.** A unit is a scale and a vector of dimension
+    exponents (what `is_equivalent` compares); `unitOf` is `evaluate_units` on right-hand sides (sums need equal units,
+    products and quotients combine them, numbers carry their own units, function symbols have any unit rule `J`).
+    If both sides of every equation of a well-formed model have the same units, so have both sides of every equation
+    after `convert_variable` — any direction, any kind of variable — provided the units of the converted variable and
+    the target units have a non-zero scale. -/
+theorem convert_var_units (J : UI) {s : CState} (hwf : WF s) (hu : UnitsOK J s) (v : Nat) (hv : v < s.vars.length)
+    (u : U) (cf : Rat) (dir : Dir) (move : Bool) (hvs : (unitOfV s v).scale ≠ 0) (hus : u.scale ≠ 0) :
+    UnitsOK J (convertVariable s v u cf dir move).1 :=
+  units_convertVariable J hwf hu v hv u cf dir move hvs hus
 
 -- ================================================================================================ sequences
 /-- the arguments of one call -/
@@ -283,5 +296,18 @@ example : Sat (K := ℚ) ⟨fun q => q, fun _ x => x, fun _ x _ => x⟩ ⟨fun _
   unfold Sat; rw [demo_eqs]; intro e he
   simp only [List.mem_cons, List.not_mem_nil, or_false] at he; subst he
   simp [Holds, demoOde, lhsVal]
+
+/-- the docstring's model is unit-consistent, so `convert_var_units` applies to it -/
+example : UnitsOK ⟨fun _ u => some u, fun _ u _ => some u⟩ demo := by
+  intro e he
+  rw [demo_eqs] at he
+  simp only [List.mem_cons, List.not_mem_nil, or_false] at he; subst he
+  unfold Consistent; decide +kernel
+example : UnitsOK ⟨fun _ u => some u, fun _ u _ => some u⟩ (convertVariable demo 0 uSec (1/1000) .input true).1 :=
+  convert_var_units _ demo_wf (by
+    intro e he
+    rw [demo_eqs] at he
+    simp only [List.mem_cons, List.not_mem_nil, or_false] at he; subst he
+    unfold Consistent; decide +kernel) 0 (by decide) uSec (1/1000) .input true (by decide +kernel) (by decide +kernel)
 
 end Cellml.Props.C06
